@@ -449,7 +449,7 @@ static void sut_build(void)
 		k_to_spki(&X_KEY[0], &sr);
 		spki_table_add_entry(&SPKI, &sr);
 	}
-	memset(SOCK, 0, sizeof(*SOCK));
+	memset(SOCK, 0xA5, sizeof(*SOCK)); /* rtr_init has to initialise every field itself */
 	if (rtr_init(SOCK, &ENV_TR, &PFX, &SPKI, CFG_REFRESH, CFG_EXPIRE < 600 ? 600 : CFG_EXPIRE, CFG_RETRY,
 		     RTR_INTERVAL_MODE_IGNORE_ANY, on_state, NULL, NULL) != RTR_SUCCESS) {
 		fprintf(stderr, "HARNESS-ABORT rtr_init refused the configured intervals\n");
